@@ -418,6 +418,11 @@ fn exec(ctx: &Ctx, st: &mut State, toks: &[&str]) -> String {
             st.bind(w, r);
             out
         }
+        ["convat", a, f, sr, sc, i] => {
+            // one element of the convolution: the whole convolution is computed by the library, then indexed
+            let r = st.get(a).conv(st.get(f), (sr.parse().unwrap(), sc.parse().unwrap()));
+            format!("s {}", ctx.render(r[parse_nats(i)]))
+        }
         ["cop", kind, w, args] => {
             let names = parse_names(args);
             let r = {
